@@ -1189,6 +1189,9 @@ func (tr *FnTrans) analyseCFG() error {
 		best := token.NoPos
 		for _, blk := range append([]*ssa.BasicBlock{b}, tr.naturalLoop(b)...) {
 			for _, in := range blk.Instrs {
+				if _, isPhi := in.(*ssa.Phi); isPhi {
+					continue // a phi carries the position of the variable's declaration, which may precede an earlier loop
+				}
 				if p := in.Pos(); p.IsValid() && (!best.IsValid() || p < best) {
 					best = p
 				}
